@@ -113,6 +113,8 @@ def gen_case(rng, tier):
         all_taken = True
     case = {"channel": channel, "graph": gen.L(triples), "target": target, "options": options, "ns": ns,
             "exempt_random_prefix": all_taken}
+    if channel == "turtle" and rng.random() < 0.4:
+        case["clash_labels"] = True      # the document binds 'ex', 'xsd', ... to other namespaces than the caller's dict
     if endpoint and rng.random() < 0.25:
         case["repeat_rows"] = True       # an endpoint may repeat rows (a triple in two named graphs); still deterministic
     return case
@@ -129,7 +131,7 @@ def materialise(case):
     if ch == "turtle_iter":
         return gen.to_nt(triples)      # N-Triples is a Turtle subset the streaming reader accepts
     if ch == "turtle":
-        return gen.to_turtle(triples)
+        return gen.to_turtle(triples, clash_labels=bool(case.get("clash_labels")))
     if ch == "xml":
         return gen.to_rdfxml(triples)
     if ch == "json-ld":
@@ -293,7 +295,9 @@ def execute(scen, scratch):
             if d_strict is not None:
                 shex_tie_choice = True
             sig = None
-            if store_backed and d_tied is None:
+            same_prefixes = sorted(l for l in a["text"].split("\n") if l.startswith("PREFIX ")) == \
+                sorted(l for l in b["text"].split("\n") if l.startswith("PREFIX "))
+            if store_backed and d_tied is None and same_prefixes:
                 # predicted wrong behaviour: same evidence, only the order among equally frequent constraints
                 # and the choice inside frequency-tied groups follow the hash-ordered rdflib store
                 sig = "rdflib_store_order_tie_order"
